@@ -314,7 +314,7 @@ theorem permLoop_eq_applySwaps (blocks : Nat → List Nat) (fuel : Nat) :
 
 /-- full statement: for every `n`, the map from in-range index sequences `(j₁ ≤ 1, j₂ ≤ 2, …, j_{n−1} ≤ n−1)`
     to arrays is a bijection onto the permutations of `0..n−1` (so uniform independent draws give a
-    uniform permutation). -/
+    uniform permutation).  Proved below as `fisherYates_bijective`. -/
 def fisherYatesBijectiveStatement : Prop :=
   ∀ n : Nat,
     (∀ js js' : List Nat, js.length = n - 1 → js'.length = n - 1 → InRange 1 js → InRange 1 js' →
@@ -322,10 +322,9 @@ def fisherYatesBijectiveStatement : Prop :=
     (∀ p : List Nat, p.Perm (List.range n) →
       ∃ js, js.length = n - 1 ∧ InRange 1 js ∧ applySwaps (List.range n) 1 js = p)
 
-/-- **Proved half: the map is injective and lands in the permutations**, for every `n`.  Missing for the
-    full statement: surjectivity.  It follows by counting — there are `∏_{i=1}^{n−1}(i+1) = n!` in-range
-    sequences and `n!` permutations — but finite cardinalities are not available without Mathlib's
-    `Fintype`, so it is not formalised. -/
+/-- **Injective, and lands in the permutations**, for every `n` (the half that was proved first; kept
+    because its second conjunct — every in-range sequence yields a permutation — is not part of
+    `fisherYatesBijectiveStatement`). -/
 theorem fisherYates_bijective_partial (n : Nat) :
     (∀ js js' : List Nat, js.length = n - 1 → js'.length = n - 1 → InRange 1 js → InRange 1 js' →
       applySwaps (List.range n) 1 js = applySwaps (List.range n) 1 js' → js = js') ∧
@@ -341,6 +340,55 @@ theorem fisherYates_bijective_partial (n : Nat) :
         (by simp; omega) heq
   · intro js h1 hr hn
     exact (applySwaps_props js (List.range n) 1 hr (by simp; omega)).2.1
+
+/-- **Surjectivity: every permutation of `0..n−1` is the output of the Fisher–Yates loop for some
+    in-range sequence of draws**, for every `n`.  Constructive (`applySwaps_surjective`): the last draw
+    is the position at which `p` holds the value `n−1`; undo that swap and recurse on the prefix.  (The
+    loop started one index earlier with the forced draw `0` is the same loop, since `swap a 0 0 = a`.) -/
+theorem fisherYates_surjective (n : Nat) (p : List Nat) (hp : p.Perm (List.range n)) :
+    ∃ js, js.length = n - 1 ∧ InRange 1 js ∧ applySwaps (List.range n) 1 js = p := by
+  cases n with
+  | zero =>
+    refine ⟨[], rfl, fun k hk => by simp at hk, ?_⟩
+    simpa [applySwaps] using hp.symm
+  | succ m =>
+    obtain ⟨js, hl, hr, ha⟩ := applySwaps_surjective (m + 1) (List.range (m + 1)) p List.nodup_range hp
+      (by simp) (fun q hq => by
+        have h1 : p.length = m + 1 := by simpa using hp.length_eq
+        simp [List.getD_eq_getElem?_getD, h1, hq])
+    cases js with
+    | nil => simp at hl
+    | cons j js =>
+      have hj : j = 0 := by have := hr 0 (by simp); simpa using this
+      subst hj
+      refine ⟨js, by simpa using hl, ?_, ?_⟩
+      · have := hr.tail; simpa using this
+      · rw [applySwaps, swap_self _ 0 (by simp)] at ha
+        simpa using ha
+
+/-- **The Fisher–Yates map is a bijection from in-range index sequences onto the permutations of
+    `0..n−1`** (the full statement): so `n − 1` independent draws, the k-th uniform on `0..k`, give a
+    uniformly distributed permutation — each of the `n!` permutations has exactly one preimage. -/
+theorem fisherYates_bijective : fisherYatesBijectiveStatement :=
+  fun n => ⟨(fisherYates_bijective_partial n).1, fisherYates_surjective n⟩
+
+/-- the same with existence and uniqueness in one formula: every permutation has exactly one in-range
+    preimage (and, by `fisherYates_bijective_partial`, every in-range sequence maps to a permutation) -/
+theorem fisherYates_existsUnique (n : Nat) (p : List Nat) (hp : p.Perm (List.range n)) :
+    ∃ js, (js.length = n - 1 ∧ InRange 1 js ∧ applySwaps (List.range n) 1 js = p) ∧
+      ∀ js', js'.length = n - 1 ∧ InRange 1 js' ∧ applySwaps (List.range n) 1 js' = p → js' = js := by
+  obtain ⟨js, h1, h2, h3⟩ := fisherYates_surjective n p hp
+  exact ⟨js, ⟨h1, h2, h3⟩, fun js' ⟨g1, g2, g3⟩ =>
+    (fisherYates_bijective_partial n).1 js' js g1 h1 g2 h2 (g3.trans h3.symm)⟩
+
+/-- non-vacuity (surjectivity): the permutation [2, 0, 3, 1] of 0..3 is reached by the in-range draws
+    0, 0, 2 (and only by them) -/
+example : [2, 0, 3, 1].Perm (List.range 4) ∧ InRange 1 [0, 0, 2]
+    ∧ applySwaps (List.range 4) 1 [0, 0, 2] = [2, 0, 3, 1] := by
+  refine ⟨by decide, ?_, by decide⟩
+  intro k hk
+  have : k = 0 ∨ k = 1 ∨ k = 2 := by simp at hk; omega
+  rcases this with rfl | rfl | rfl <;> simp
 
 /-- non-vacuity: the six in-range sequences for n = 3 give the six permutations -/
 example : [[0, 0], [0, 1], [0, 2], [1, 0], [1, 1], [1, 2]].map (applySwaps (List.range 3) 1)
